@@ -597,10 +597,42 @@ Definition compile_file (es : list entity) : outcome (list component) :=
 Definition compile (e : entity) : outcome (list component) := compile_file [e].
 
 (* what protodesc.NewFiles (structure.APIFromImage, the first step towards the client API)
-   rejects although the compiler linked it: a proto3-optional field that is repeated (an
-   optional array or map: visitObjectNode puts it into a synthetic oneof) *)
+   rejects although the compiler linked it:
+   (1) a proto3-optional field that is repeated (an optional array or map: visitObjectNode puts
+       it into a synthetic oneof);
+   (2) an open enum with two values whose names coincide once the enum-name prefix is trimmed
+       (case-insensitively, ignoring '_') and the rest is put into PascalCase
+       (protodesc validateEnumDeclarations: strs.TrimEnumPrefix / strs.EnumValueName):
+       `status Active` + `status ACTIVE`. *)
+Fixpoint drop_underscores (s : bytes) : bytes :=
+  match s with c :: r => if c =? 95 then drop_underscores r else s | [] => [] end.
+(* strs.TrimEnumPrefix(s, prefix), prefix lower-case without underscores; [s0] is the whole name *)
+Fixpoint trim_enum_prefix_go (s0 s prefix : bytes) : bytes :=
+  match s with
+  | [] => s0
+  | c :: r =>
+      match prefix with
+      | [] => match drop_underscores s with [] => s0 | t => t end
+      | p :: pr => if c =? 95 then trim_enum_prefix_go s0 r prefix
+                   else if to_lower c =? p then trim_enum_prefix_go s0 r pr else s0
+      end
+  end.
+Definition trim_enum_prefix (s prefix : bytes) : bytes := trim_enum_prefix_go s s prefix.
+(* strs.EnumValueName: PascalCase, '_' dropped *)
+Fixpoint enum_value_name_go (upper_next : bool) (s : bytes) : bytes :=
+  match s with
+  | [] => []
+  | c :: r => if c =? 95 then enum_value_name_go true r
+              else (if upper_next then to_upper c else to_lower c) :: enum_value_name_go false r
+  end.
+Definition enum_value_name (s : bytes) : bytes := enum_value_name_go true s.
+Definition enum_prefix_of (name : bytes) : bytes := map to_lower (filter (fun c => negb (c =? 95)) name).
+Definition enum_accepts (name : bytes) (vs : list (bytes * N)) : bool :=
+  nodup_bytes (map (fun v => enum_value_name (trim_enum_prefix (fst v) (enum_prefix_of name))) vs).
+
 Definition client_accepts (cs : list component) : bool :=
-  forallb (fun f => negb (f_optional f && f_repeated f)) (fields_of cs).
+  forallb (fun f => negb (f_optional f && f_repeated f)) (fields_of cs)
+  && forallb (fun c => match c with CEnum n vs => enum_accepts n vs | _ => true end) cs.
 
 (* error classes, as the harness classifies the real compiler's message (errClass in c17.go) *)
 Definition err_class (s : string) : N :=
